@@ -11,6 +11,11 @@ use crate::ws::{pos, Workspace};
 
 pub struct C20;
 
+/// trivia put in front of (and behind) a completion context
+const PRE: [&str; 10] = ["// naïve café\n", "// 日本語 😀 𝔘\n", "/* ü */ ", "\r\n", "\n", "  ", "// plain\r\n", "/* a\n b */\n", "\t", "// ééé ¡!\n"];
+/// (context, trigger character): the cursor is at the end
+const DOC_CTX: [(&str, Option<&str>); 6] = [("c", None), ("class Foo<i", None), ("class Foo<int a = t", None), ("!", Some("!")), ("defvar x = !", Some("!")), ("def d { int v = !", Some("!"))];
+
 fn complete(text: &str, at: usize, trigger: Option<&str>) -> Vec<CompletionItem> {
     let ws = Workspace::new(&[("root.td".to_string(), text.to_string())], "root.td");
     ws.analysis().completion(pos(ws.root, at), trigger.map(|s| s.to_string())).unwrap_or_default()
@@ -256,6 +261,17 @@ impl Property for C20 {
                 emit(json!({"kind": "vocab-nonempty"}));
             })
             .exhaustive(),
+            // the same four contexts inside documents: trivia in front of them (comments with non-ASCII
+            // text, CRLF and bare line breaks, block comments) changes nothing of what is offered
+            Family::new("vocabulary-in-documents", ctx.tier.pick(40, 400), |_c, rng, emit| {
+                for _ in 0..50 {
+                    let pre: Vec<usize> = (0..1 + rng.below(5)).map(|_| rng.below(PRE.len())).collect();
+                    let post: Vec<usize> = (0..rng.below(3)).map(|_| rng.below(PRE.len())).collect();
+                    if !emit(json!({"kind": "vocab-doc", "ctx": rng.below(DOC_CTX.len()), "pre": pre, "post": post})) {
+                        return;
+                    }
+                }
+            }),
             Family::new("class-completion-sem", ctx.tier.pick(100, 4000), |_c, rng, emit| {
                 for _ in 0..50 {
                     if !emit(json!({"kind": "class-completion-sem", "seed": rng.next() >> 16, "n": 2 + rng.below(8), "opts": "clean"})) {
@@ -282,6 +298,35 @@ impl Property for C20 {
     fn run_case(&self, _ctx: &Ctx, case: &Case) -> Verdict {
         match case["kind"].as_str() {
             Some("vocab") => vocab_item(case["item"].as_str().unwrap_or("")),
+            Some("vocab-doc") => {
+                let (Some(k), Some(pre), Some(post)) = (case["ctx"].as_u64(), case["pre"].as_array(), case["post"].as_array()) else { return Verdict::Skip("malformed-case") };
+                let (text, trigger) = DOC_CTX[k as usize % DOC_CTX.len()];
+                let pick = |v: &Vec<serde_json::Value>| -> String { v.iter().map(|i| PRE[i.as_u64().unwrap_or(0) as usize % PRE.len()]).collect() };
+                let (pre, post) = (pick(pre), pick(post));
+                let item = |c: CompletionItem| (c.label.to_string(), format!("{:?}", c.kind));
+                let mut bare: Vec<(String, String)> = complete(text, text.len(), trigger).into_iter().map(item).collect();
+                let doc = format!("{pre}{text}");
+                let mut got: Vec<(String, String)> = complete(&doc, doc.len(), trigger).into_iter().map(item).collect();
+                bare.sort();
+                got.sort();
+                if bare != got {
+                    let missing: Vec<&(String, String)> = bare.iter().filter(|x| !got.contains(x)).collect();
+                    let extra: Vec<&(String, String)> = got.iter().filter(|x| !bare.contains(x)).collect();
+                    return Verdict::Fail(Failure::new("C20.vocabulary-depends-on-trivia", format!("C20.vocabulary-depends-on-trivia:{k}"), format!("completion at the end of {doc:?} (trigger {trigger:?}): missing {missing:?}, additional {extra:?} compared with the same context {text:?} without the comments and line breaks in front")));
+                }
+                // after a `!`, whatever follows the cursor: every operator the lexer accepts is offered
+                if trigger.is_some() {
+                    let doc2 = format!("{pre}{text}{post}");
+                    let offered: BTreeSet<String> = complete(&doc2, doc.len(), trigger).into_iter().map(|c| c.label.to_string()).collect();
+                    for w in lexer_candidates() {
+                        let accepted = matches!(single_token(&format!("!{w}")), Some(k) if k.is_bang_operator() || k.is_cond_operator());
+                        if accepted && !offered.contains(&w) {
+                            return Verdict::Fail(Failure::new("C20.lexed-not-offered", format!("C20.lexed-not-offered:!{w}"), format!("the lexer accepts !{w} but it is not offered after the '!' at {} of {doc2:?}", doc.len())));
+                        }
+                    }
+                }
+                Verdict::pass(!pre.is_ascii() || pre.contains('\r'))
+            }
             Some("vocab-nonempty") => {
                 // the four contexts answer with their vocabularies at all (guards the harvest itself)
                 let n = [complete("c", 1, None).len(), complete("class Foo<i", 11, None).len(), complete("class Foo<int a = t", 19, None).len(), complete("!", 1, Some("!")).len()];
